@@ -222,8 +222,16 @@ class Rot:
     def __mul__(self, o):
         if isinstance(o, Rot) and self.q is not None and o.q is not None:
             return Rot(*qmul(self.q, o.q))
+        if isinstance(o, Rot) and self.q is None and o.q is None:
+            th = self.theta + o.theta  # two yaw rotations: angles add; the unit quaternion flips sign when the sum wraps
+            sg = self.sign * o.sign
+            if bool(th > PI):
+                th, sg = th - 2 * PI, -sg
+            elif bool(th <= -PI):
+                th, sg = th + 2 * PI, -sg
+            return Rot(theta=th, sign=sg)
         if isinstance(o, Rot):
-            # angle mode on either side: compose the rotation matrices and map the product back to an angle
+            # angle mode on one side: compose the rotation matrices and map the product back to an angle
             # (the double-cover sign of the product is not tracked: rotation only)
             A, B = self.rotation_matrix, o.rotation_matrix
             M = [[A[i][0] * B[0][j] + A[i][1] * B[1][j] + A[i][2] * B[2][j] for j in range(3)] for i in range(3)]
